@@ -19,8 +19,13 @@ def layout(name):
     return getattr(BMSChannel, name)
 
 
+def ref_layout(name):
+    """the standard layout as the reference knows it (independent of the library's table)"""
+    return ref.ref_layout(name)
+
+
 def lane_channels(name):
-    lay = layout(name)
+    lay = ref_layout(name)
     return sorted([(c, ch.decode()) for ch, c in lay.items() if isinstance(c, int)])
 
 
@@ -122,12 +127,12 @@ def check_read(ctx, label, m, d):
     ctx.check(label + ".header.other-headers", all(got.get(k) == v for k, v in others.items()), note="%r vs %r" % (got, others))
 
 
-def ob_read(lay, note_lines, tempo_lines, order, ctx, lnobj="ZZ"):
+def ob_read(lay, note_lines, tempo_lines, order, ctx, lnobj="ZZ", extra_header=()):
     from reamber.bms import BMSMap
 
-    lines, L = build(ctx, lay, note_lines, tempo_lines, order=order, lnobj=lnobj)
+    lines, L = build(ctx, lay, note_lines, tempo_lines, order=order, lnobj=lnobj, extra_header=extra_header)
     m = BMSMap.read(lines, note_channel_config=layout(lay))
-    d = ref.parse(ctx, lines, layout(lay))
+    d = ref.parse(ctx, lines, ref_layout(lay))
     ctx.check("reference.well-formed-input", not d["ill_formed"], note="%r" % d["ill_formed"][:2])
     check_read(ctx, "read", m, d)
 
@@ -144,6 +149,7 @@ def note_sets(nl):
     S["ln-then-hit"] = [(0, a, 8, {0: "01", 2: "ZZ", 4: "02", 5: "01", 7: "ZZ"})]
     S["two-lines-same-measure"] = [(2, a, 4, {0: "01"}), (2, a, 3, {1: "02", 2: "01"}), (2, b, 48, {1: "01", 47: "0Z"})]
     S["unknown-wav"] = [(0, a, 2, {0: "0A", 1: "01"})]
+    S["fine-grid"] = [(0, a, 512, {1: "01", 511: "02"}), (1, b, 101, {3: "01", 100: "ZZ"}), (1, a, 1000, {999: "0Z"})]
     S["every-lane"] = [(0, i, 4, {i % 4: "01"}) for i in range(nl)]
     return S
 
@@ -156,7 +162,15 @@ TEMPO_SETS = {
     "two-in-line": [(1, "08", 8, {1: "01", 6: "02"})],
     "at-zero": [(0, "08", 1, {0: "01"})],
     "48th": [(1, "08", 48, {1: "01"})],
+    "later-listed-before-at-zero": [(2, "08", 3, {1: "02"}), (0, "08", 1, {0: "01"})],
+    "96th-beat": [(0, "08", 384, {5: "01"}), (1, "03", 32, {27: "5A"})],
+    # the two sets below are in the property's domain ("anywhere in a measure") and fail: known finding C04-tempo-change-off-the-snap-grid
+    "incommensurate-changes": [(0, "08", 384, {5: "01"}), (1, "03", 28, {27: "5A"})],
+    "off-farey96-grid": [(0, "08", 512, {3: "01"}), (1, "03", 101, {100: "5A"})],
 }
+
+
+KNOWN_FAILING = ("incommensurate-changes", "off-farey96-grid")
 
 
 def obligations(tier, seed):
@@ -167,7 +181,12 @@ def obligations(tier, seed):
         S = note_sets(nl)
         for ni, (nname, nlines) in enumerate(S.items()):
             for ti, (tname, tlines) in enumerate(TEMPO_SETS.items()):
-                if quick and not ((ni + ti + len(lay)) % 5 == 0 or (lay == "BME" and ti in (0, 2, 3)) or (nname == "every-lane" and ti == 1)):
+                if tname in KNOWN_FAILING:
+                    if lay == "BME" and (nname in ("hits", "ln-across-measures") or not quick):
+                        obs.append(Obligation("C04/read/%s/%s/tempo=%s/order0" % (lay, nname, tname), partial(ob_read, lay, nlines, tlines, None),
+                                              bound="layout %s; note lines %s; tempo lines %s" % (lay, nlines, tlines)))
+                    continue
+                if quick and not ((ni + ti + len(lay)) % 5 == 0 or (lay in ("BME", "PMS") and ((nname == "fine-grid" and ti in (0, 2, 7, 8, 9, 10)) or (ti >= 7 and ni in (0, 3, 8)))) or (lay == "BME" and ti in (0, 2, 3)) or (nname == "every-lane" and ti == 1)):
                     continue
                 n = len(nlines) + len(tlines)
                 orders = [None, tuple(reversed(range(n)))]
@@ -180,5 +199,10 @@ def obligations(tier, seed):
                         continue
                     obs.append(Obligation("C04/read/%s/%s/tempo=%s/order%d" % (lay, nname, tname, oi), partial(ob_read, lay, nlines, tlines, order),
                                           bound="layout %s; note lines %s; tempo lines %s (symbolic #BPM and #BPMxx values); data lines in order %s" % (lay, nlines, tlines, order)))
+    for lay in (("BME",) if quick else LAYOUTS):
+        S = note_sets(len(lane_channels(lay)))
+        for nname in ("ln-in-line", "ln-across-measures", "ln-then-hit"):
+            obs.append(Obligation("C04/read/%s/%s/lnobj-id-has-a-wav" % (lay, nname), partial(ob_read, lay, S[nname], TEMPO_SETS["ext-mid"], None, extra_header=("#WAVZZ lnend.wav",)),
+                                  bound="layout %s; note lines %s; the #LNOBJ id also has a #WAV definition" % (lay, S[nname])))
     obs.append(Obligation("C04/read/BME/no-lnobj", partial(ob_read, "BME", note_sets(8)["hits"], TEMPO_SETS["ext-mid"], None, lnobj=""), bound="file without #LNOBJ"))
     return obs
